@@ -36,6 +36,9 @@ BASE_FLAGS.append("-DC20_HAS_BF_MEMPTR_RV=%d" % _probe(
     "#include <etl/functional.hpp>\nstruct S { int d; long q(int) && { return 0; } long c(int) const&& { return 0; } };\n"
     "long use(S s) { auto g = etl::bind_front(&S::q, s); auto const h = etl::bind_front(&S::c, s); auto m = etl::bind_front(&S::d, s);\n"
     "  auto const n = etl::bind_front(&S::d, s); int v = etl::move(m)() + etl::move(n)(); return etl::move(g)(1) + etl::move(h)(2) + v; }\n"))
+BASE_FLAGS.append("-DC20_HAS_BF_MEMPTR_LV=%d" % _probe(
+    "#include <etl/functional.hpp>\nstruct S { int d; long q(int) & { return 0; } };\n"
+    "long use(S s) { auto g = etl::bind_front(&S::q, s); auto m = etl::bind_front(&S::d, s); return g(1) + m(); }\n"))
 BASE_FLAGS.append("-DC20_HAS_TCAT0=%d" % _probe("#include <etl/tuple.hpp>\nauto use() { return etl::tuple_cat(); }\n"))
 BASE_FLAGS.append("-DC20_HAS_MFT_NARROW=%d" % _probe(
     "#include <etl/tuple.hpp>\n#include <etl/utility.hpp>\nstruct A { int a; int b; int c; }; struct N { N(short, short) {} };\n"
